@@ -6,7 +6,7 @@
    Proved below: the matcher's specification; forcing by messages; the export format carries the
    set unchanged; for nushell and powershell (blank carried inside the quoted value) the blank is
    present iff the value does not match — for every value and set, on the trigger sets regenerated
-   from the source; bash-ble's suffix field.  REFUTED for xonsh (decision taken on the quoted text).
+   from the source; bash-ble's suffix field.  xonsh likewise since the repair recorded as C05-xonsh-quoted.
    Stretch (not yet proved, checked by correspondence + oracle only): zsh's five states, elvish,
    ion, cmd-clink, oil, bash's global flag; non-ASCII suffix runes through Add/Merge. *)
 From CV Require Import Base.Str Base.Utf8 Gen.Tables Model.Common Model.Shells Model.ShellValue Proofs.Suffix.
@@ -43,10 +43,10 @@ Theorem C05_bash_ble : forall ns v d de,
 Proof. exact bash_ble_field. Qed.
 Print Assumptions C05_bash_ble.
 
-Theorem C05_xonsh_refuted :
-  exists ns v, sm_matches ns v = true /\ last_byte (xonsh_emit ns v) = Some (byte 32).
-Proof. exact xonsh_refuted. Qed.
-Print Assumptions C05_xonsh_refuted.
+Theorem C05_xonsh : forall ns v,
+  last_byte (xonsh_emit ns v) = Some (byte 32) <-> sm_matches ns (replace1 xonsh_sanitizer v) = false.
+Proof. exact xonsh_space_iff. Qed.
+Print Assumptions C05_xonsh.
 
 (* non-vacuity: a value that needs quoting and ends in a no-space character *)
 Example C05_nushell_example :
